@@ -5,7 +5,8 @@ FUNC_NODES = (ast.FunctionDef, ast.AsyncFunctionDef)
 SCOPE_NODES = (ast.FunctionDef, ast.AsyncFunctionDef, ast.Lambda, ast.ClassDef)
 
 MUTATORS = frozenset("""append add update pop remove clear insert extend popitem discard setdefault
-set_result set_exception cancel set sort reverse write truncate appendleft popleft""".split())
+set_result set_exception cancel set sort reverse write truncate appendleft popleft
+intersection_update difference_update symmetric_difference_update""".split())
 
 
 def dotted(node):
